@@ -41,18 +41,20 @@ Lemma seval_mono : forall n t r, seval n t r <> OOF -> forall m, n <= m -> seval
 Proof.
   induction n as [|n IH]; intros t r H m L; [cbn in H; congruence|].
   destruct m as [|m]; [lia|]. assert (L' : n <= m) by lia.
-  destruct t; cbn in *; auto.
+  destruct t as [x|x b|f a|x e b|x e b|k|bb|o a b|c t e|fs|e f|a b|]; cbn in *; auto.
   - destruct (slookup r x) as [[e re]|]; auto.
   - pose proof (bind_not_oof _ _ H) as Hf. rewrite (IH _ _ Hf _ L').
-    destruct (seval n t1 r) as [vf| |]; cbn in *; auto. destruct vf; auto.
+    destruct (seval n f r) as [vf| |]; cbn in *; auto. destruct vf; auto.
   - pose proof (bind_not_oof _ _ H) as Ha. rewrite (IH _ _ Ha _ L').
-    destruct (seval n t1 r) as [va| |]; cbn in *; auto.
+    destruct (seval n a r) as [va| |]; cbn in *; auto.
     pose proof (bind_not_oof _ _ H) as Hb. rewrite (IH _ _ Hb _ L'). reflexivity.
   - pose proof (bind_not_oof _ _ H) as Hc. rewrite (IH _ _ Hc _ L').
-    destruct (seval n t1 r) as [vc| |]; cbn in *; auto. destruct vc; auto. destruct b; auto.
+    destruct (seval n c r) as [vc| |]; cbn in *; auto. destruct vc as [|[|]| |]; auto.
   - pose proof (bind_not_oof _ _ H) as He. rewrite (IH _ _ He _ L').
-    destruct (seval n t r) as [ve| |]; cbn in *; auto. destruct ve; auto.
-    destruct (assoc defs f); auto.
+    destruct (seval n e r) as [ve| |]; cbn in *; auto. destruct ve as [| | |fs]; auto.
+    destruct (assoc fs f) as [[cf fl]|]; auto.
+  - pose proof (bind_not_oof _ _ H) as Ha. rewrite (IH _ _ Ha _ L').
+    destruct (seval n a r) as [va| |]; cbn in *; auto.
 Qed.
 
 Lemma seval_approx n m t r : n <= m -> approx (seval n t r) (seval m t r).
@@ -80,7 +82,8 @@ Inductive sframe :=
 | SOp2First (o : binop) (b : tm) (r : senv)
 | SOp2Second (o : binop) (v : sval)
 | SIf (t : tm) (rt : senv) (e : tm) (re : senv)
-| SProj (f : string).
+| SProj (f : string)
+| SSeq (b : tm) (r : senv).
 
 (* the value [v] is returned to the continuation [K] *)
 Fixpoint sapply (n : nat) (K : list sframe) (v : sval) : res sval :=
@@ -107,14 +110,15 @@ Fixpoint sapply (n : nat) (K : list sframe) (v : sval) : res sval :=
       | 0 => OOF
       | S m =>
           match v with
-          | VRec defs rr =>
-              match assoc defs f with
-              | Some ef => bind (seval m ef (ERec defs rr)) (sapply n K')
+          | VRec fs =>
+              match assoc fs f with
+              | Some (cf, _) => bind (seval m (fst cf) (snd cf)) (sapply n K')
               | None => Err EFieldMissing
               end
           | _ => Err ETypeErr
           end
       end
+  | SSeq b r :: K' => bind (seval n b r) (sapply n K')
   end.
 
 Definition sctrl_eval (n : nat) (c : sctrl) : res sval :=
@@ -132,13 +136,14 @@ Ltac case_bind :=
 Lemma sapply_app n K1 K2 v : sapply n (K1 ++ K2) v = bind (sapply n K1 v) (sapply n K2).
 Proof.
   revert v; induction K1 as [|fr K1 IH]; intros v; cbn; auto.
-  destruct fr as [a r| |o b r|o va|t rt e re|f]; cbn; auto.
+  destruct fr as [a r| |o b r|o va|t rt e re|f|b r]; cbn; auto.
   - destruct v; auto. rewrite bind_assoc. case_bind.
   - rewrite bind_assoc. case_bind. rewrite bind_assoc. case_bind.
   - rewrite bind_assoc. case_bind.
   - destruct v as [| [|] | |]; auto; rewrite bind_assoc; case_bind.
-  - destruct n; auto. destruct v as [| | |defs rr]; auto. destruct (assoc defs f); auto.
+  - destruct n; auto. destruct v as [| | |fs]; auto. destruct (assoc fs f) as [[cf fl]|]; auto.
     rewrite bind_assoc. case_bind.
+  - rewrite bind_assoc. case_bind.
 Qed.
 
 Lemma sden_app c K1 K2 n : sden c (K1 ++ K2) n = bind (sden c K1 n) (sapply n K2).
@@ -149,7 +154,7 @@ Qed.
 Lemma sapply_mono : forall K n v, sapply n K v <> OOF -> forall m, n <= m -> sapply m K v = sapply n K v.
 Proof.
   induction K as [|fr K IH]; intros n v H m L; cbn in *; auto.
-  destruct fr as [a r| |o b r|o va|t rt e re|f]; cbn in *; auto.
+  destruct fr as [a r| |o b r|o va|t rt e re|f|b r]; cbn in *; auto.
   - destruct v as [| |x b rf|]; auto.
     pose proof (bind_not_oof _ _ H) as Hb. rewrite (seval_mono _ _ _ Hb _ L).
     destruct (seval n b (ECons x a r rf)); cbn in *; auto.
@@ -162,9 +167,11 @@ Proof.
     + pose proof (bind_not_oof _ _ H) as Hb. rewrite (seval_mono _ _ _ Hb _ L).
       destruct (seval n e re); cbn in *; auto.
   - destruct n as [|n]; [congruence|]. destruct m as [|m]; [lia|].
-    destruct v as [| | |defs rr]; auto. destruct (assoc defs f) as [ef|]; auto.
+    destruct v as [| | |fs]; auto. destruct (assoc fs f) as [[cf fl]|]; auto.
     pose proof (bind_not_oof _ _ H) as Hb. rewrite (seval_mono _ _ _ Hb m) by lia.
-    destruct (seval n ef (ERec defs rr)); cbn in *; auto.
+    destruct (seval n (fst cf) (snd cf)); cbn in *; auto.
+  - pose proof (bind_not_oof _ _ H) as Hb. rewrite (seval_mono _ _ _ Hb _ L).
+    destruct (seval n b r); cbn in *; auto.
 Qed.
 
 Lemma sctrl_eval_mono c n : sctrl_eval n c <> OOF -> forall m, n <= m -> sctrl_eval m c = sctrl_eval n c.
